@@ -271,14 +271,15 @@ func lockBalance(c *core.Ctx, li *core.LockInfo, rule string, fns []*ssa.Functio
 		})
 		// taking a lock that is already held by the same goroutine deadlocks (sync mutexes are not reentrant);
 		// this is also how a missing unlock shows in a loop that never returns
+		may := core.LocksInMay(f, li.Entry[f])
 		core.Instrs(f, func(ins ssa.Instruction) {
 			call, ok := ins.(*ssa.Call)
 			if !ok {
 				return
 			}
 			if op, path, ok2 := core.LockOp(&call.Call); ok2 && (op == "Lock" || op == "RLock") {
-				if li.At[ins].Has(path, "W") || op == "Lock" && li.At[ins].Has(path, "R") {
-					bad = fmt.Sprintf("%s of %s at %s while it is already held (held=%s): self-deadlock (an unlock is missing on a path that comes back here)", op, path, p.InstrPos(ins), li.At[ins])
+				if may[ins].Has(path, "W") || op == "Lock" && may[ins].Has(path, "R") {
+					bad = fmt.Sprintf("%s of %s at %s can be reached while it is still held (may-held=%s): self-deadlock (an unlock is missing on a path that comes back here)", op, path, p.InstrPos(ins), may[ins])
 				}
 			}
 		})
